@@ -391,6 +391,14 @@ class Monitor:
         if self.bad is None:
             self.bad = msg
 
+    def check_checkpointed(self, buf, missing, when):
+        """a checkpointed chunk counts as present only if what is stored hashes to the built-in checkpoint"""
+        for start, want in self.cfg['checkpoints']:
+            if start not in missing and dsha(buf[start * HS:(start + CHUNK) * HS]).hex() != want:
+                zero = buf[start * HS:(start + CHUNK) * HS] == bytes(min(CHUNK * HS, max(0, len(buf) - start * HS)))
+                self.fail(f'{when} chunk {start} counts as present (not in known_missing_checkpointed_chunks) but its '
+                          f'content{" (all zero)" if zero else ""} does not hash to the checkpoint')
+
     def broken_links(self, buf, lo, hi):
         """heights h in (lo, hi) whose prev field does not hash-link to header h-1"""
         out = []
@@ -399,12 +407,19 @@ class Monitor:
                 out.append(h)
         return out
 
-    def on_open(self, io_after, size):
+    def on_open(self, io_after, size, missing=()):
         cfg, file = self.cfg, self.file or b''
+        self.check_checkpointed(io_after, missing, 'after open()')
         whole = len(file) // HS
         hz = horizon(cfg)
         start = 0 if len(file) % HS else hz
-        if not cfg['checkpoints'] or len(io_after) <= len(file):
+        # with checkpoints open() re-pads [max checkpoint, +1000) with zeros when the repaired chain ended below it;
+        # what was loaded is then no longer visible separately (the model comparison still covers every byte)
+        padded = False
+        if cfg['checkpoints']:
+            a, b = (hz - CHUNK) * HS, hz * HS
+            padded = io_after[a:b] == bytes(CHUNK * HS) and file[a:b] != io_after[a:b]
+        if not padded and (not cfg['checkpoints'] or len(io_after) <= len(file)):
             if io_after != file[:len(io_after)]:
                 self.fail('loaded chain is not a prefix of the stored file')
         # first damaged link the code is supposed to find
@@ -421,7 +436,7 @@ class Monitor:
                 self.fail(f'first damaged link at {fb} but only {size} headers kept')
         # link-detectable damage above the start of the check: the loaded chain is a prefix of what was STORED,
         # i.e. it does not contain the damaged header itself
-        if fb is not None and self.stored is not None and fb > start:
+        if fb is not None and self.stored is not None and fb > start and not padded:
             lo, hi = start * HS, size * HS
             if io_after[lo:hi] != self.stored[lo:hi]:
                 d = next(h for h in range(start, size) if io_after[h * HS:(h + 1) * HS] != self.stored[h * HS:(h + 1) * HS])
@@ -497,6 +512,8 @@ class Monitor:
                 self.fail(f'chunk at {start} stored although it does not hash to the checkpoint')
             elif io_after[start * HS:start * HS + len(chunk)] != chunk:
                 self.fail('stored chunk differs from the fetched one')
+            self.base = max(self.base, min(size, start + CHUNK))
+            self.w = max(self.w, self.base)
         self.io, self.size = io_after, size
 
     def on_lookup(self, op, res, io_after, size):
@@ -511,9 +528,16 @@ class Monitor:
                           f'{size} headers) with a server chunk for the un-checkpointed range {start}')
             elif res.get('res') == 'ok' and op['height'] >= self.size:
                 self.fail(f'lookup of height {op["height"]} beyond the {self.size} stored headers succeeded')
-        elif io_after != self.io:
-            if cp.get(start) != dsha(chunk).hex():
+        else:
+            if io_after != self.io and cp.get(start) != dsha(chunk).hex():
                 self.fail(f'chunk at {start} stored although it does not hash to the checkpoint')
+            if io_after != self.io:
+                self.base = max(self.base, min(size, start + CHUNK))
+                self.w = max(self.w, self.base)
+            if res.get('res') == 'ok' and dsha(io_after[start * HS:(start + CHUNK) * HS]).hex() != cp[start]:
+                self.fail(f'lookup of checkpointed height {op["height"]} via {op["via"]} was served '
+                          f'({"no server request" if res.get("fetch") == "has" else res.get("fetch")}) from a chunk '
+                          f'that does not hash to the checkpoint')
         if not self.cfg['checkpoints'] and self.bad is None and size <= 64:
             r = self.chain_ok(io_after, size)
             if r is not None:
@@ -557,6 +581,8 @@ class Miner:
         """a successor of chain[-1]; rule=None: fully valid; otherwise valid except for that one rule"""
         rng, cfg = self.rng, self.cfg
         t = self.target_for(chain)
+        if cfg['vd'] and rule != 'pow' and t < 1 << 242:
+            raise TooHard()
         if delta is None:
             if t < cfg['max_target'] >> 4:
                 delta = rng.choice([750, 1000, 100000])     # relax the difficulty again
@@ -582,8 +608,6 @@ class Miner:
         while True:
             raw = pack(ver, prev, merkle, claim, ts, bits & 0xffffffff, nonce)
             self.tries += 1
-            if self.tries > 5000000:
-                raise RuntimeError('mining budget exhausted (target too hard for the harness)')
             good = (not cfg['vd']) or pow_value(raw) <= t
             if good != want_pow_fail:
                 return raw
@@ -630,6 +654,10 @@ def mutate_field(rng, raw):
     return bytes(b), field
 
 
+class TooHard(Exception):
+    pass
+
+
 class Stop(Exception):
     """the monitor has failed: stop generating, report the history so far"""
 
@@ -641,6 +669,11 @@ def guarded(fn):
             return fn(run, model, *a, box=box, **kw)
         except Stop:
             return box[0].finish()
+        except TooHard:
+            # a retarget (possibly through the mod 2^256 wrap) produced a target the harness cannot mine for:
+            # keep what was exercised so far, skip the rest of this history
+            run.count('skipped:target-too-hard')
+            return box[0].finish() if box else None
     return wrapper
 
 
@@ -665,7 +698,7 @@ class History:
         self.results.append(res)
         k = op['op']
         if k == 'open':
-            self.mon.on_open(self.impl.io(), res['size'])
+            self.mon.on_open(self.impl.io(), res['size'], res['missing'])
         elif k == 'connect':
             self.mon.on_connect(op, res['res'], self.impl.io(), res['size'])
         elif k in ('fetch', 'fetch_chunk'):
@@ -1098,6 +1131,65 @@ def gen_lookups_zero_slot(run, model, rng, box=None):
     return h.finish()
 
 
+RESTART_VARIANTS = ['hole-low', 'both', 'damaged-low', 'hole-high', 'none-fetched']
+CUT_CLASSES = ['mid-last', 'last-byte', 'first-byte-of-last', 'mid-tip', 'in-chunk1', 'in-chunk0', 'tiny', 'aligned-tip',
+               'aligned-2000', 'aligned-1500', 'no-cut', 'appended-junk']
+
+
+@guarded
+def gen_checkpoint_restart(run, model, rng, variant, cut, box=None):
+    """two built-in checkpoints (ranges 0 and 1000); the ledger's order -- highest chunk first, then the tip --; shut
+    down; crash cut of every class (misaligned cuts make open() repair from genesis, which truncates at a hole);
+    restart; has_header / lookups with a chunk getter / re-connect of the tip; restart again"""
+    chain = linked_chain(rng, 2 * CHUNK)
+    good = [b''.join(chain[:CHUNK]), b''.join(chain[CHUNK:])]
+    cfg = {'max_target': (1 << 255) - 1, 'genesis': dsha(chain[0]).hex(), 'vd': True,
+           'checkpoints': [[0, dsha(good[0]).hex()], [CHUNK, dsha(good[1]).hex()]]}
+    miner = Miner(rng, cfg)
+    top = miner.extend(chain[-2:], rng.randrange(3, 9))[2:]
+    h = History(run, model, cfg, None, 'checkpoint-restart', box)
+    run.count('checkpoint-restart:%s/%s' % (variant, cut))
+
+    def look(height, chunk, via=None):
+        return h.do({'op': 'lookup', 'via': via or rng.choice(VIAS), 'height': height, 'chunk': chunk.hex(), 'io': False})
+
+    h.do({'op': 'open', 'io': False})
+    if variant in ('hole-low', 'both', 'damaged-low'):
+        look(CHUNK + rng.randrange(CHUNK), good[1])
+    if variant in ('hole-high', 'both', 'damaged-low'):
+        look(rng.randrange(CHUNK), good[0])
+    h.connect(2 * CHUNK, top, io=False)
+    h.do({'op': 'close', 'io': False})
+    n = len(h.impl.get_file())
+    if variant == 'damaged-low':
+        off = rng.randrange(1, CHUNK - 1) * HS + rng.randrange(4, 36)
+        h.do({'op': 'patchfile', 'off': off, 'data': rng.randbytes(2).hex()})
+    cuts = {'mid-last': n - 50, 'last-byte': n - 1, 'first-byte-of-last': n - HS + 1,
+            'mid-tip': n - HS * rng.randrange(1, len(top)) - rng.randrange(1, HS),
+            'in-chunk1': (CHUNK + rng.randrange(1, CHUNK)) * HS - rng.randrange(1, HS),
+            'in-chunk0': rng.randrange(1, CHUNK) * HS - rng.randrange(1, HS), 'tiny': rng.randrange(1, HS),
+            'aligned-tip': n - HS, 'aligned-2000': 2 * CHUNK * HS, 'aligned-1500': 1500 * HS}
+    if cut in cuts:
+        h.do({'op': 'patchfile', 'cut': cuts[cut]})
+    elif cut == 'appended-junk':
+        h.do({'op': 'patchfile', 'off': n, 'data': rng.randbytes(rng.randrange(1, HS)).hex()})
+    h.do({'op': 'open', 'io': False})
+    for hgt in (500, 1500, 2 * CHUNK + 1):
+        h.do({'op': 'has_header', 'height': hgt})
+    bad = bytearray(good[1])
+    bad[rng.randrange(len(bad))] ^= 0x10
+    look(1500, bytes(bad))
+    look(1500, good[1], 'get_raw_header')
+    look(1999, good[1])
+    look(rng.randrange(CHUNK), good[0])
+    look(0, good[0], 'hash')
+    h.connect(2 * CHUNK, top, io=False)
+    h.connect(h.size(), miner.extend(chain[-2:] + top, 1)[-1:], io=False)
+    h.do({'op': 'close', 'io': False})
+    h.do({'op': 'open', 'io': False})
+    return h.finish()
+
+
 # ---------------- pure functions ----------------
 
 def boundary_values():
@@ -1375,14 +1467,21 @@ def main(run):
         'headers, a valid continuation, nothing or a misaligned blob; otherwise valid headers whose proof-of-work value '
         'sits at target, target+-1, inside / at the top of / just past the band that rounds to the same compact bits '
         '(PoW hash replaced for exactly those headers on both sides; one such header pre-mined with the real hash is in '
-        'the corpus). distinct = distinct '
+        'the corpus); two built-in checkpoints with the higher / lower / both / no chunk fetched or a lower header damaged, '
+        'every class of crash cut (misaligned in the last header, the tip, either chunk; aligned; appended junk), then '
+        'restart, has_header, lookups and re-connect of the tip. distinct = distinct '
         'full case (config, file, op list); non-trivial = more than one operation or a non-zero pure input.')
 
     # corpus first
     for path in sorted(glob.glob(os.path.join(CORPUS, '*.json'))):
         with open(path) as f:
             case = json.load(f)
-        run_case(run, model, case)
+        if case.get('generate') == 'checkpoint_restart':
+            # scenario too large to store as bytes (2 x 1000 headers): regenerated from its own fixed seed
+            import random as _random
+            gen_checkpoint_restart(run, model, _random.Random(case['seed']), case['variant'], case['cut'])
+        else:
+            run_case(run, model, case)
         run.count('corpus')
 
     # ---- pure functions
@@ -1419,9 +1518,14 @@ def main(run):
     run.count('mainnet-cut-offsets', len(offsets))
 
     # ---- small mined chain: every cut offset, every damaged position
-    cfg = easy_cfg(rng)
-    miner = Miner(rng, cfg)
-    small = miner.extend([miner.genesis()], vlib.scaled(T, 4, 7))
+    while True:
+        cfg = easy_cfg(rng)
+        miner = Miner(rng, cfg)
+        try:
+            small = miner.extend([miner.genesis()], vlib.scaled(T, 4, 7))
+            break
+        except TooHard:
+            run.count('skipped:target-too-hard')
     cfg = with_genesis(cfg, small)
     offs = list(range(len(small) * HS + 1))
     for i in range(0, len(offs), 250):
@@ -1463,6 +1567,17 @@ def main(run):
         gen_big_reopen(run, model, rng, n, damage)
     for i in range(vlib.scaled(T, 2, 12)):
         gen_checkpoints(run, model, rng, two=bool(i % 2))
+
+    # ---- restart with checkpoints: which chunks count as present after a crash cut
+    combos = [(v, c) for v in RESTART_VARIANTS for c in CUT_CLASSES]
+    if T != 'thorough':
+        fixed = [('hole-low', 'mid-last'), ('hole-low', 'in-chunk1'), ('damaged-low', 'last-byte'),
+                 ('both', 'mid-tip'), ('hole-high', 'first-byte-of-last'), ('hole-low', 'aligned-tip')]
+        rest = [x for x in combos if x not in fixed]
+        rng.shuffle(rest)
+        combos = fixed + rest[:2]
+    for v, c in combos:
+        gen_checkpoint_restart(run, model, rng, v, c)
 
     # ---- proof of work exactly at / just above the target
     for _ in range(vlib.scaled(T, 25, 400)):
